@@ -95,6 +95,14 @@ package index
 
 //@ func (*multiWidthIndex).forEachDigest
 //@   call[maplookup#0] assume stored_buckets_wellformed: 8 <= value.width && value.width <= 33554432 && value.len * value.width <= len(value.index)
+//@   closure[0]
+//@     assume sort_slice_indices: 0 <= i && i < len(sizes) && 0 <= j && j < len(sizes)
+//@   end
+
+//@ func (*InsertionIndex).GetAll
+//@   closure[0]
+//@     assume tree_holds_record_digests: typeis(i, "v2/index.recordDigest")
+//@   end
 
 //@ func (*multiWidthIndex).Unmarshal
 //@   call[mapupdate#0] assert stores_wellformed_bucket [C03,C09,C11]: 8 <= value.width && value.width <= 33554432 && value.len * value.width <= len(value.index) && key == value.width
